@@ -41,7 +41,7 @@ CLASSES = [
     "dot", "general", "concat", "mh_dot", "mh_general", "mh_concat",
     "single_kept", "mh_mask_last_eq_heads", "no_mask", "neg_dim", "broadcast_query",
     "mh_bias_flags", "saturated", "mh_single_kept", "rank2", "mh_broadcast_query", "long_seq",
-    "mask_wider_than_scores", "mh_nested",
+    "mask_wider_than_scores", "mh_nested", "huge_negative_scores",
 ]
 _CLS_NAMES = {"dot": "DotProductSoftAttention", "general": "GeneralizedDotProductSoftAttention",
               "concat": "ConcatSoftAttention", "mh": "MultiHeadedAttention"}
@@ -151,6 +151,8 @@ def generate(rng, tier, i):
         fl = cls[3:]
     else:
         fl = SINGLE[rng.randrange(3)]
+    if cls == "huge_negative_scores":
+        fl = "dot"
     # ---- shapes
     n = 2 if cls == "rank2" else rng.choice([2, 3, 3, 3, 4, 4, 5])
     if cls in ("neg_dim", "broadcast_query", "mh_broadcast_query", "mask_wider_than_scores") and n == 2:
@@ -176,7 +178,7 @@ def generate(rng, tier, i):
         for j in range(n - 1):
             if j != p and full[j] == 1:
                 full[j] = rng.randint(2, mx)
-    if cls in ("single_kept", "mh_single_kept") and T == 1:
+    if cls in ("single_kept", "mh_single_kept", "huge_negative_scores") and T == 1:
         T = full[p] = rng.randint(2, mx)
     key_b, qry_b, val_b, msk_b = [], [], [], []
     for j in range(n - 1):
@@ -207,7 +209,7 @@ def generate(rng, tier, i):
         val_b[j] = msk_b[j] = full[j]
     # ---- mask
     no_mask = cls == "no_mask" or (cls not in ("single_kept", "mh_single_kept", "mh_mask_last_eq_heads",
-                                              "mask_wider_than_scores")
+                                              "mask_wider_than_scores", "huge_negative_scores")
                                    and rng.random() < 0.15)
     mask = None
     mask_off = 0
@@ -273,6 +275,8 @@ def generate(rng, tier, i):
         spec = _single_spec(rng, fl, mx, dim)
         vsize = rng.randint(1, mx)
     dtype = "float64" if (cls == "saturated" or rng.random() < 0.15) else "float32"
+    if cls == "huge_negative_scores":
+        dtype = "float32"
     if cls == "saturated":
         qk_scale = rng.choice([10.0, 30.0])
     elif dtype == "float64":
@@ -284,6 +288,8 @@ def generate(rng, tier, i):
         "query_shape": qry_b + [spec["query_size"]], "key_shape": key_b + [spec["key_size"]],
         "value_shape": val_b + [vsize], "mask": mask, "mask_leading_dims_dropped": mask_off, "dtype": dtype,
         "alias_kv": alias_kv,
+        # every score finite but far below -1e9 (queries and keys of magnitude 1e5 whose products are all negative)
+        "qk_mode": "scores_below_minus_1e9" if cls == "huge_negative_scores" else None,
         "seed": rng.getrandbits(31),
         "qk_scale": qk_scale, "v_offset": rng.choice([0.0, 0.0, 10.0, 100.0, -50.0]),
         "v_noise": rng.choice([1.0, 1.0, 0.1]), "p_scale": rng.choice([0.5, 1.0]),
@@ -377,6 +383,10 @@ def _materialise(case):
     mod = _travel(mod, case, dt, case["seed"], case["n"])
     q = (torch.randn(case["query_shape"], generator=g, dtype=torch.float64) * case["qk_scale"]).to(dt)
     k = (torch.randn(case["key_shape"], generator=g, dtype=torch.float64) * case["qk_scale"]).to(dt)
+    if case.get("qk_mode") == "scores_below_minus_1e9":
+        sgn = 1.0 if float(case["spec"]["scale_factor"]) > 0 else -1.0
+        q = ((q.double().abs() / case["qk_scale"] + 0.5) * 2e5).to(dt)
+        k = (-sgn * (k.double().abs() / case["qk_scale"] + 0.5) * 2e5).to(dt)
     v = (case["v_offset"] + torch.randn(case["value_shape"], generator=g, dtype=torch.float64) * case["v_noise"]).to(dt)
     mask = None
     if case["mask"] is not None:
